@@ -403,8 +403,8 @@ def gen_C13(w, tier):
         sc.pred = lambda io, sc: (sc.meta["fails"][0] if sc.meta["fails"] else None)
         out.append(sc)
     # toy groups: all elements
-    for name, ps in w.ps.items():
-        if not ps.toy or ps.base:
+    for name, ps in w.gs.items():
+        if not ps.toy:
             continue
         if ps.q > 60 and not big:
             continue
@@ -424,7 +424,7 @@ def gen_C13(w, tier):
         laws(ps, name, all_elems, scal, 200 if not big else 3000, 60 if not big else 2000, ("toy-exhaustive", "set:toy" + ps.kind))
     # shipped groups: edge operands
     for name in ("ed", "1024", "2048", "3072"):
-        ps = w.ps[name]
+        ps = w.gs[name]
         q = ps.q
         if ps.kind == "int" and not big and name != "1024":
             continue
@@ -590,6 +590,22 @@ def gen_C15(w, tier):
             l = len(sc.lines)
             sc.do("g.dec %d %s" % (ps.gid, hx(enc or b"")))
             rec.append((x, i, j, k, l))
+        if ps.kind == "ed":
+            negs = []
+            srcs = [be]
+            d_ = w.eid()
+            if sc.do("e.dec %d %d %s" % (d_, ps.gid, hx(payload(sc.impl_out[0])))).startswith("ok"):
+                srcs.append(d_)
+            k_ = w.eid()
+            sc.do("e.smul %d %d %d" % (k_, be, 7))
+            srcs.append(k_)
+            for src in srcs:
+                n_ = w.eid()
+                o_n = sc.do("e.neg %d %d" % (n_, src))
+                o_s = sc.do("e.enc %d" % src)
+                o_d = sc.do("g.dec %d %s" % (ps.gid, hx(payload(o_n) or b"")))
+                negs.append((o_s, o_n, o_d))
+            sc.meta["negs"] = negs
         # to_bytes/bytes_to_element are mutually inverse: no other string decodes
         extra = []
         genc = payload(sc.impl_out[0])
@@ -611,6 +627,11 @@ def gen_C15(w, tier):
         def pred2(io, sc):
             kind, ssize, esize, q = sc.meta["ps"]
             seen = {}
+            for (o_s, o_n, o_d) in sc.meta.get("negs", []):
+                if not o_n.startswith("ok") or payload(o_n) == payload(o_s):
+                    return "distinct elements P and -P share an encoding (or negate failed): %s / %s" % (o_s[:60], o_n[:60])
+                if not o_d.startswith("ok") or payload(o_d) != payload(o_n):
+                    return "the encoding of -P does not decode back to itself"
             for (alt, o) in sc.meta.get("extra", []):
                 if o.startswith("ok") and (len(alt) != esize or payload(o) != alt):
                     return "bytes_to_element accepted %s, which is not the encoding of the element it returns" % hx(alt)[:70]
